@@ -309,10 +309,28 @@ def gen_outopt():
     need(re.escape("m_writer->write(chars[i]);"), ft, "FormatterToText writes every unit")
     if "if(chars[i]>m_maxCharacter){}" in ft:
         out += "Definition text_method_checks_representability : bool := false.\n"
-    elif "if(chars[i]>m_maxCharacter){XalanDOMStringtheBuffer(getMemoryManager());throwXalanTranscodingServices::UnrepresentableCharacterException(chars[i],m_encoding,theBuffer);}" in ft:
+    elif "if(chars[i]>m_maxCharacter){checkRepresentable(m_writer->getStream(),m_encoding,chars,i,length,getMemoryManager());}" in ft:
+        whole = _sq(read("XMLSupport/FormatterToText.cpp"))
+        need(re.escape("if(theStream->canTranscodeTo(theChar)==false){XalanDOMStringtheBuffer(theManager);throwXalanTranscodingServices::UnrepresentableCharacterException(theChar,theEncoding,theBuffer);}"),
+             whole, "checkRepresentable raises UnrepresentableCharacterException when the transcoder cannot represent the character")
         out += "Definition text_method_checks_representability : bool := true.    (* repaired (K18) *)\n"
     else:
         raise AnchorError("FormatterToText::characters: neither the original nor the repaired handling of a character above m_maxCharacter")
+
+    # ---- XalanOutputStream: does a flush for more data keep a trailing high surrogate back? (K-C08-2 / C05 K05e)
+    osh = _sq(read("PlatformSupport/XalanOutputStream.hpp"))
+    osc = _sq(read("PlatformSupport/XalanOutputStream.cpp"))
+    if "if(m_buffer.size()==m_bufferSize){flushBuffer();}m_buffer.push_back(theChar);" in osh:
+        facts["stream_keeps_high_surrogate"] = False
+    elif "if(m_buffer.size()>=m_bufferSize){flushBufferForMore();}m_buffer.push_back(theChar);" in osh:
+        need(re.escape("if(m_buffer.empty()==false&&isHighSurrogate(m_buffer.back())==true){constXalanDOMChartheHighSurrogate=m_buffer.back();m_buffer.pop_back();flushBuffer();m_buffer.push_back(theHighSurrogate);}else{flushBuffer();}"),
+             osc, "flushBufferForMore keeps a trailing high surrogate in the buffer")
+        facts["stream_keeps_high_surrogate"] = True
+    else:
+        raise AnchorError("XalanOutputStream::write(XalanDOMChar): neither the original nor the repaired flush")
+    out += "Definition stream_keeps_high_surrogate : bool := %s.\n" % ("true" if facts["stream_keeps_high_surrogate"] else "false")
+    facts["text_method_checks_representability"] = "text_method_checks_representability : bool := true" in out
+    facts["cdata_sets_prevtext"] = "cdata_sets_prevtext : bool := true" in out
 
     # ---- HTML element table
     rows, enum_e, enum_a = html_table()
